@@ -1403,7 +1403,8 @@ class XMLSchemaBase(XsdValidator, ElementPathMixin[Union[SchemaType, XsdElement]
                     identities[identity] = counter
             context.identities = identities
 
-        yield from self._validate_references(validation, context)
+        if max_depth is None and not path:
+            yield from self._validate_references(validation, context)
 
     def _validate_references(self, validation: str, context: ValidationContext) \
             -> Iterator[XMLSchemaValidationError]:
